@@ -829,6 +829,14 @@ fn generate(cfg: &GenCfg, rng: &mut Rng, w: &mut dyn Write) {
         "circ 2 ; and i0 i1 ; and i1 i0 ; or g0 g1 ; roots g2",
         "circ 2 ; and i0 U ; roots g0",
         "circ 2 ; and i0 i1 ; roots i5",
+        // boundary: the first input number that does not exist, as a root and as a gate input
+        "circ 2 ; and i0 i1 ; roots i2",
+        "circ 2 ; and i0 i1 ; roots !i2",
+        "circ 2 ; and i0 i1 ; roots g0 i2",
+        "circ 2 ; and i0 i1 ; roots i1 g0",
+        "circ 2 ; and i0 i2 ; roots g0",
+        "circ 0 ; roots i0",
+        "circ 1 ; roots i0 i1",
         "circ 2 ; and i0 g7 ; roots g0",
         "circ 2 ; roots",
         "circ 0 ; roots T F",
